@@ -760,6 +760,139 @@ def handover_twins(chk, work, base):
                mismatches=bad, branches=dict(branches, refused=refused))
 
 
+def extreme_and_stamp_twins(chk, work, base):
+    """Round 6 (families in harness/w1_util.py), judged at the two hand-overs like handover_twins and confirmed by the
+    pair of un-stubbed runs. (E) Windows of extreme air temperature: every hour colder than -10 C (Toronto 3 February as
+    shipped; a synthetic deep freeze) or hotter than 50 C (a synthetic heat wave) - the fixed start of the ground (293 K)
+    lies more than 30 K outside the range of the window. Twins: rural rows after a cut hour changed / one more day from
+    the same start. (T) The same rural data under other conventions of the date / time stamp cells of the data rows (hour
+    0..23, single stamps edited, minute 0 / 30, an actual year, 01..24): all 24 hours identical."""
+    import s1_util as S
+    import v1_util as V
+    import w1_util as W1
+    rng = chk.rng
+    thorough = chk.tier == 'thorough'
+    bad, total, branches, refused = 0, 0, {}, 0
+
+    def gen(path, name, param, attrs):
+        m = U.new_model(param=param, epw=path, outdir=work, outname=name, **attrs)
+        with core.quiet():
+            m.generate()
+        return m
+
+    def run(path, name, param, attrs):
+        m = gen(path, name, param, attrs)
+        with core.quiet():
+            m.simulate()
+            m.write_epw()
+        return m, U.records(m), load_epw(m.new_epw_path)
+
+    jobs = []       # (family, label, param, src path, attrs, first, [(what, twin path, twin attrs, upto)], case extras)
+    tor = load_epw(W1.data_file(W1.TORONTO_EPW))
+    for mi, (label, rows, param, month, day) in enumerate(W1.extreme_members(rng, base, tor, not thorough)):
+        first = 8 + 24 * S.doy0(month, day)
+        h = rng.randint(3, 20)
+        attrs = dict(month=month, day=day, nday=1, dtsim=300)
+        src = S.save_epw(rows, os.path.join(work, 'xt%d_src.epw' % mi))
+        pert = S.copy_rows(rows)
+        for i in range(first + h + 1, first + 48):
+            for c in MODELLED:
+                if c == 6:      # later hours a little colder / warmer (the window keeps its character)
+                    pert[i][c] = '%.1f' % (float(pert[i][c]) + rng.choice([-1.3, 0.9, -2.1]))
+                else:
+                    pert[i][c] = perturb_value(rng, c, pert[i][c])
+        twins = [('rural rows after hour %d changed' % h, S.save_epw(pert, os.path.join(work, 'xt%d_cut.epw' % mi)), attrs, h + 1),
+                 ('1 more day simulated from the same start', src, dict(attrs, nday=2), 24)]
+        temps = [float(rows[first + n][6]) for n in range(24)]
+        jobs.append(('extreme window', label, param, src, attrs, first, twins,
+                     {'dry bulb of the window [C] (min, max)': [min(temps), max(temps)]}))
+    names = list(W1.STAMP_VARIANTS) if thorough else list(W1.STAMP_VARIANTS[:2]) + [rng.choice(W1.STAMP_VARIANTS[2:])]
+    month, day = rng.choice([(1, 1), (3, 30), (6, 29), (9, 14), (11, 2), (5, 31)])
+    first = 8 + 24 * S.doy0(month, day)
+    attrs = dict(month=month, day=day, nday=1, dtsim=rng.choice([300, 150, 600]))
+    src = S.save_epw(base, os.path.join(work, 'st_src.epw'))
+    twins = [(nm, S.save_epw(W1.stamp_variant(base, nm, first), os.path.join(work, 'st_%d.epw' % i)), attrs, 24)
+             for i, nm in enumerate(names)]
+    jobs.append(('time-stamp convention', 'Singapore file as shipped (hours stamped 1..24, minute 60, years of the IWEC months)',
+                 U.PARAM_SGP, src, attrs, first, twins, {}))
+
+    for (family, label, param, src, attrs, first, twins, extra) in jobs:
+        try:
+            ref = gen(src, 'xt_ref.epw', param, attrs)
+        except Exception as e:  # noqa: BLE001
+            refused += 1
+            chk.notes.append('%s twins: %s refused by generate(): %s' % (family, label, str(e)[:80]))
+            continue
+        ref_init = V.initial_digests(ref)
+        ref_trace = V.handover_trace(ref)
+        spd = 86400 // attrs['dtsim']
+        for (what, path, tattrs, upto) in twins:
+            total += 1
+            key = family + ': ' + ('more days' if 'more day' in what else 'after-cut' if 'after hour' in what else 'same data')
+            branches[key] = branches.get(key, 0) + 1
+            case = dict({'kind': family + ' twins', 'member': label, 'param': os.path.basename(param), 'params': attrs,
+                         'twin': what, 'twin_params': tattrs, 'first_row': first, 'cut_hour': upto - 1,
+                         'how': 'harness/props/c03.py extreme_and_stamp_twins; harness/w1_util.py extreme_members / stamp_variant'},
+                        **extra)
+            try:
+                tw = gen(path, 'xt_twin.epw', param, tattrs)
+            except Exception as e:  # noqa: BLE001
+                bad += 1
+                chk.violation('impl-violation', 'causality: the twin of an accepted configuration is refused (%s)' % what,
+                              case=case, observed='%s: %s' % (type(e).__name__, str(e)[:160]),
+                              expected='the same urban hours up to the cut')
+                continue
+            diff = V.initial_difference(ref_init, tw, lambda: gen(src, 'xt_ref2.epw', param, attrs))
+            where = 'what generate() hands to simulate()'
+            if diff is None:
+                hd = V.handover_difference(ref_trace, V.handover_trace(tw, max_steps=upto * spd // 24), upto * spd // 24, None)
+                if hd is not None:
+                    diff = ('step %d' % hd[0], '%s = %r vs %r' % (hd[1], hd[2], hd[3]))
+                    where = 'what the loop hands to the physics'
+            if diff is None:
+                continue
+            confirmed = None
+            try:
+                a = run(src, 'xt_a.epw', param, attrs)
+                b = run(path, 'xt_b.epw', param, tattrs)
+                d = first_diff(a[1], b[1], upto)
+                if d is None:
+                    for n in range(upto):
+                        if [a[2][first + n][c] for c in (6, 7, 8, 21)] != [b[2][first + n][c] for c in (6, 7, 8, 21)]:
+                            d = n
+                            break
+                if d is not None:
+                    confirmed = 'un-stubbed pair: hour %d differs: records %s vs %s' % (d, a[1][d][:3], b[1][d][:3])
+            except Exception as e:  # noqa: BLE001
+                chk.notes.append('%s twins: confirmation pair of %s raised %s' % (family, label, str(e)[:80]))
+            bad += 1
+            if confirmed:
+                if bad <= 4:
+                    chk.violation('impl-violation', 'causality: paired runs differ (%s; %s)' % (label, what), case=case,
+                                  observed={'hand-over': where, 'first difference': list(diff), 'paired runs': confirmed},
+                                  expected='records and written rows for hours <= %d bit-identical' % (upto - 1))
+            else:
+                chk.corr_problems.append({'tie': 'extreme-window / time-stamp twins', 'case': '%s / %s / %s' % (label, what, attrs),
+                                          'impl': '%s differs: %s' % (where, list(diff)),
+                                          'model': 'Sim.simulate: initial state and forcing of hours <= h are functions of the '
+                                                   'rows up to h and of the modelled columns only (the un-stubbed pair showed no '
+                                                   'difference in the records or raised)'})
+    chk.direct('twins(extreme-temperature windows / time-stamp conventions of the data rows)', total, total,
+               'real generate() and the real simulate loop (physics stubbed), differences confirmed by the pair of un-stubbed '
+               'runs. (E) windows whose EVERY hour is colder than -10 C or hotter than 50 C, i.e. more than 30 K away from the '
+               'fixed 293 K start of road and soil: Toronto 3 February as shipped (Toronto parameters), a three-day deep freeze '
+               '(-31 .. -10 C) written into a random Toronto winter day, a three-day heat wave (+26.5 / +29 K, RH 12 %) written '
+               'into a Singapore day (thorough: also Toronto 27 January, 22 February, a cold first day before an ordinary one); '
+               'twins: every modelled column of the rows after a cut hour h in 3..20 changed (dry bulb by -2.1 .. +0.9 K) / one '
+               'more day from the same start. (T) the shipped Singapore file against the same data with the hours stamped '
+               '0..23, with two hour stamps edited (first record of the window 24, second 1) and one of: minute 0 / 30, one '
+               'actual year in every row, first day stamped 24,1..23, 01..24, hour 1 in every row of the window (thorough: all): '
+               'all 24 hours. Compared: (i) every object and table generate() builds except forcIP / weather / simTime / forc, '
+               'bit-exact; (ii) per step up to the cut everything the loop hands to the physics (twelve forcing values, clock, '
+               'day type, traffic heat, canyon humidity, schedules and set points)',
+               mismatches=bad, branches=dict(branches, refused=refused))
+
+
 def run(chk):
     from props import step
     chk.proof(MODULE, THEOREMS + step.THEOREMS, extra_modules=[step.MODULE])
@@ -914,6 +1047,7 @@ def run(chk):
     window_statistic_pairs(chk, work, base)
     circumstance_pairs(chk, work, base)
     handover_twins(chk, work, base)
+    extreme_and_stamp_twins(chk, work, base)
     # composition C: the physics of one step as one Lean function, tied exactly to the real loop body
     step.run_step(chk)
     chk.assumptions.append('the theorems hold for ANY physics that is a function of (state, current forcing row, '
